@@ -281,7 +281,7 @@ def generic_roundtrip(ctx, tys, name, claim=None):
                     fallback_native="e2n_c01_struct_roundtrip")
     ob.cross_every = 16
     agg = Engine(P)
-    covered, skipped = [], {}
+    covered, skipped, refused = [], {}, {}
     SENT = ("uint", z3.IntVal(424242))
     for ty in tys:
         try:
@@ -325,6 +325,11 @@ def generic_roundtrip(ctx, tys, name, claim=None):
                     D.base = list(o.pc)
                     douts = D.explore("<%s as Deserialize>::deserialize" % ty, lambda: [R(CM.VDe(stream + [SENT]), "raw")], max_paths=200)
                     good = [d for d in douts if d.kind == "return" and d.value.variant == "Ok"]
+                    if variant == "indefinite" and douts and all(d.kind == "return" and d.value is not None and d.value.variant == "Err" for d in douts):
+                        # C01 speaks about the library's own (definite) bytes; a decoder that REFUSES the indefinite spelling is a
+                        # limitation, not a round-trip failure (TransactionOutput's post-Alonzo map decoder has no break handling)
+                        refused.setdefault(ty, 0); refused[ty] += 1
+                        continue
                     if len(good) != 1 or len(douts) != 1:
                         local.violation("%s (%s encoding %s): decoding does not succeed deterministically: %s" % (ty, variant, [(t[0], t[1] if t[0] in ("array", "map", "tag") else "") for t in stream][:8],
                                                                                                                   [(d.kind, d.msg[:60], d.value.variant if d.value is not None else None) for d in douts][:3])); continue
@@ -373,6 +378,8 @@ def generic_roundtrip(ctx, tys, name, claim=None):
             skipped[ty] = "path abort " + e.msg[:100]
         except (AttributeError, TypeError, IndexError, KeyError, ValueError) as e:
             skipped[ty] = "engine error %r" % (e,)
+    if refused:
+        ob.bound += " Indefinite-length spelling refused by the decoder (not required by C01, noted): " + ", ".join("%s(%d)" % kv for kv in sorted(refused.items())) + "."
     ob.bound += " Covered types (serializer paths): " + ", ".join(covered) + ". Outside the engine's reach (not claimed): " + ", ".join(sorted(skipped))
     ctx.log("  [E2] generic round trip covered %d types; skipped: %s" % (len(covered), {k: v[:90] for k, v in skipped.items()}))
     ob.expected_covered = covered
